@@ -181,10 +181,14 @@ def spec_cut(st):
 
 
 def gen_jobs(r, tier):
-    """exhaustive grid of single states x panic-code configurations, then random sequences"""
+    """exhaustive grid of single states x panic-code configurations, then random sequences
+    (quick tier: the configurations other than [1] only for calls that ended in a Revert -- the only ones whose
+    classification can depend on the configured codes -- and for own-frame internal errors)"""
     jobs = []
     for codes in CODES:
         for err in range(5):
+            if tier == "quick" and codes != [1] and err not in (1, 4):
+                continue
             for subs in SUBS:
                 for d in DATAS:
                     for pr in (False, True):
